@@ -639,7 +639,7 @@ func TestRandomTrees(t *testing.T) {
 		return
 	}
 	getEngine()
-	rec.Check(t, rec.Scale(2000, 40000), func(rt *rapid.T) {
+	rec.Check(t, rec.Scale(2000, 25000), func(rt *rapid.T) {
 		g := &treeGen{t: rt, byType: map[string][]int{}}
 		root := g.pickType("root-type", func(typ) bool { return true })
 		expr := g.gen(root, rapid.IntRange(1, 5).Draw(rt, "depth"), false)
